@@ -66,6 +66,43 @@ def _valid_sk(x):
     return T.raw_op('VALID_SK', x)
 
 
+def _point_of_coordinate_encoding(b):
+    """(02 | 03 by the parity of y) || ser256(x) written out by hand from a point's coordinates is that point's compressed
+    encoding: returns the point, or None"""
+    def is_parity(c, P):
+        if T.is_op(c, 'BOOL') and len(c) == 3:
+            c = c[2]
+        return (T.is_op(c, 'BITAND') and set(c[2:]) == {T.const(1), T.raw_op('PY', P)}) or \
+            (T.is_op(c, 'MOD') and c[2] == T.raw_op('PY', P) and c[3] == T.const(2))
+    if T.tag(b) == 'phi':
+        # the case analysis on the parity of y may have been lifted out of the concatenation
+        alts = []
+        for x in (b[2], b[3]):
+            if T.is_op(x, 'CAT') and len(x) == 4 and T.is_op(x[3], 'SER') and x[3][3] == T.const(32) and x[3][4] == T.const('big') \
+                    and T.is_op(x[3][2], 'PX') and x[2] in (T.const(b'\x02'), T.const(b'\x03')):
+                alts.append((x[2], x[3][2][2]))
+        if len(alts) == 2 and alts[0][1] == alts[1][1] and alts[0][0] == T.const(b'\x03') and alts[1][0] == T.const(b'\x02') \
+                and is_parity(b[1], alts[0][1]):
+            return alts[0][1]
+        return None
+    if not (T.is_op(b, 'CAT') and len(b) == 4):
+        return None
+    pre, xs = b[2], b[3]
+    if not (T.is_op(xs, 'SER') and xs[3] == T.const(32) and xs[4] == T.const('big') and T.is_op(xs[2], 'PX')):
+        return None
+    P = xs[2][2]
+    if T.tag(pre) == 'phi' and {pre[2], pre[3]} == {T.const(b'\x02'), T.const(b'\x03')}:
+        c = pre[1]
+        if T.is_op(c, 'BOOL') and len(c) == 3:
+            c = c[2]
+        odd_first = pre[2] == T.const(b'\x03')
+        parity = (T.is_op(c, 'BITAND') and set(c[2:]) == {T.const(1), T.raw_op('PY', P)}) or \
+            (T.is_op(c, 'MOD') and c[2] == T.raw_op('PY', P) and c[3] == T.const(2))
+        if parity and odd_first:
+            return P
+    return None
+
+
 def _not_a_sec_encoding(b):
     """bytes whose leading byte is known and is not a SEC prefix (02 / 03 compressed, 04 uncompressed; the raw 64-byte form
     python-ecdsa also accepts has no prefix at all): e.g. the private payload 0x00 || k handed to a public-key parser"""
@@ -680,6 +717,8 @@ def _ext_call(ev, dotted, args, kwargs, fr, node):
     if dotted == 'pysecp256k1.ec_pubkey_parse':
         if _not_a_sec_encoding(args[0]):
             return T.raise_('LibraryError')
+        if _point_of_coordinate_encoding(args[0]) is not None:
+            return _point_of_coordinate_encoding(args[0])
         return _contract(ev, fr, [T.raw_op('ON_CURVE', args[0])], T.parse_pt(args[0]))
     if dotted == 'pysecp256k1.ec_seckey_tweak_add':
         k, t = args[0], args[1]
@@ -713,6 +752,8 @@ def _ext_call(ev, dotted, args, kwargs, fr, node):
             return T.raw_op('PARSE_PT_UNVALIDATED', a['string'], a['validate_point'])
         if _not_a_sec_encoding(a['string']):
             return T.raise_('LibraryError')
+        if _point_of_coordinate_encoding(a['string']) is not None:
+            return _point_of_coordinate_encoding(a['string'])
         return _contract(ev, fr, [T.raw_op('ON_CURVE', a['string'])], T.parse_pt(a['string']))
     if dotted == 'ecdsa.VerifyingKey.from_public_point':
         a = _kw(args, kwargs, ['point', 'curve', 'hashfunc', 'validate_point'], {'curve': T.ext('ecdsa.curves.NIST192p')})
@@ -897,6 +938,9 @@ def method_call(ev, recv, name, args, kwargs, fr, node):
             return T.NONE if name in ('close', 'flush') else T.TRUE
         return T.opaque('stream.%s' % name)
     if tb == 'point':
+        if name in ('x', 'y') and not args and not kwargs:
+            # affine coordinates of a curve point: integers in [0, p)
+            return T.raw_op('PX' if name == 'x' else 'PY', recv)
         if name == 'to_string':
             a = _kw(args, kwargs, ['encoding'], {'encoding': T.const('raw')})
             enc = a['encoding']
